@@ -144,8 +144,8 @@ namespace
         std::vector<value> keys;
         auto data = right.data<d_hashmap>();
         for (auto& it : data->map())
-        {
-            keys.push_back(it.first);
+        { // handed out by value, as they were captured: an array key changed in place would no longer match its hash
+            keys.push_back(capture_key(it.first));
         }
         return std::make_shared<d_array>(keys);
     }
